@@ -954,4 +954,133 @@ theorem runOp_consistent (env : Env J S C) (cfg : Cfg) (st : Stats) (op : Op) (h
     · simp only [runOp, statsOf, hf]; exact consistent_fail st _ h
     · simp only [runOp, statsOf, hf]; exact consistent_hit st pre s h
 
+/-! ### the coercion helper -/
+
+section Coercion
+variable {K V : Type} [DecidableEq K]
+
+theorem lookupKey_mem (d : List (K × V)) (k : K) (v : V) (h : lookupKey d k = some v) : (k, v) ∈ d := by
+  unfold lookupKey at h
+  cases hf : d.find? (fun e => e.1 == k) with
+  | none => simp [hf] at h
+  | some e =>
+    simp [hf] at h
+    have hp := List.find?_some hf
+    have hm := List.mem_of_find?_eq_some hf
+    simp at hp
+    subst h
+    rw [← hp]
+    exact hm
+
+theorem setKey_keys (d : List (K × V)) (k : K) (v : V) : (setKey d k v).map (·.1) = d.map (·.1) := by
+  unfold setKey
+  induction d with
+  | nil => rfl
+  | cons e d ih =>
+    simp only [List.map_cons, ih]
+    by_cases h : e.1 = k <;> simp [h]
+
+theorem mem_setKey (d : List (K × V)) (k : K) (v : V) (e : K × V) (h : e ∈ setKey d k v) :
+    e ∈ d ∨ (e = (k, v) ∧ ∃ w, (k, w) ∈ d) := by
+  unfold setKey at h
+  obtain ⟨e0, he0, rfl⟩ := List.mem_map.mp h
+  by_cases hk : e0.1 = k
+  · right
+    simp [hk]
+    exact ⟨e0.2, by rw [← hk]; exact he0⟩
+  · left
+    simpa [hk] using he0
+
+/-- `v'` is `v`, or arises from `v` by conversions of the coercion table that the schema allows for key `k` -/
+inductive FromConv (c : CEnv J K V) (k : K) : V → V → Prop where
+  | refl (v : V) : FromConv c k v v
+  | step {v w w' : V} (a : Ann) (cv : Conv) : FromConv c k v w → (k, a) ∈ c.fields →
+      convert c a w = some (w', cv) → FromConv c k v w'
+
+omit [DecidableEq K] in
+theorem FromConv.trans {c : CEnv J K V} {k : K} {u v w : V} (h1 : FromConv c k u v) (h2 : FromConv c k v w) :
+    FromConv c k u w := by
+  induction h2 with
+  | refl => exact h1
+  | step a cv _ hmem hconv ih => exact FromConv.step a cv ih hmem hconv
+
+/-- what a label of `coercions_applied` certifies -/
+def LabelOk (c : CEnv J K V) (l : K × Conv) : Prop :=
+  ∃ a v v', (l.1, a) ∈ c.fields ∧ convert c a v = some (v', l.2)
+
+theorem coerceFields_spec (c : CEnv J K V) : ∀ (fs : List (K × Ann)) (d : List (K × V)) (ls : List (K × Conv)),
+    (∀ x ∈ fs, x ∈ c.fields) →
+    (coerceFields c fs d ls).1.map (·.1) = d.map (·.1) ∧
+    (∀ e ∈ (coerceFields c fs d ls).1, ∃ v, (e.1, v) ∈ d ∧ FromConv c e.1 v e.2) ∧
+    (∃ new, (coerceFields c fs d ls).2 = ls ++ new ∧ new.length ≤ fs.length ∧ ∀ l ∈ new, LabelOk c l) := by
+  intro fs
+  induction fs with
+  | nil =>
+    intro d ls _
+    refine ⟨rfl, ?_, [], by simp [coerceFields], Nat.le_refl _, by simp⟩
+    intro e he
+    exact ⟨e.2, he, FromConv.refl _⟩
+  | cons f fs ih =>
+    intro d ls hsub
+    obtain ⟨k, a⟩ := f
+    have hsub' : ∀ x ∈ fs, x ∈ c.fields := fun x hx => hsub x (List.mem_cons_of_mem _ hx)
+    have hka : (k, a) ∈ c.fields := hsub (k, a) (List.mem_cons_self ..)
+    cases hl : lookupKey d k with
+    | none =>
+      rw [show coerceFields c ((k, a) :: fs) d ls = coerceFields c fs d ls from by simp [coerceFields, hl]]
+      obtain ⟨h1, h2, new, h3, h4, h5⟩ := ih d ls hsub'
+      exact ⟨h1, h2, new, h3, by simp; omega, h5⟩
+    | some v =>
+      cases hc : convert c a v with
+      | none =>
+        rw [show coerceFields c ((k, a) :: fs) d ls = coerceFields c fs d ls from by simp [coerceFields, hl, hc]]
+        obtain ⟨h1, h2, new, h3, h4, h5⟩ := ih d ls hsub'
+        exact ⟨h1, h2, new, h3, by simp; omega, h5⟩
+      | some r =>
+        obtain ⟨v', cv⟩ := r
+        rw [show coerceFields c ((k, a) :: fs) d ls = coerceFields c fs (setKey d k v') (ls ++ [(k, cv)]) from by
+          simp [coerceFields, hl, hc]]
+        obtain ⟨h1, h2, new, h3, h4, h5⟩ := ih (setKey d k v') (ls ++ [(k, cv)]) hsub'
+        refine ⟨by simpa [setKey_keys] using h1, ?_, (k, cv) :: new, by simp [h3], by simp; omega, ?_⟩
+        · intro e he
+          obtain ⟨w, hw, hfc⟩ := h2 e he
+          rcases mem_setKey d k v' (e.1, w) hw with hin | ⟨heq, _⟩
+          · exact ⟨w, hin, hfc⟩
+          · have hk : e.1 = k := by simpa using congrArg Prod.fst heq
+            have hwv : w = v' := by simpa using congrArg Prod.snd heq
+            subst hwv
+            refine ⟨v, by rw [hk]; exact lookupKey_mem d k v hl, ?_⟩
+            rw [hk] at hfc ⊢
+            exact FromConv.trans (FromConv.step a cv (FromConv.refl v) hka hc) hfc
+        · intro l hl'
+          rcases List.mem_cons.mp hl' with rfl | h
+          · exact ⟨a, v, v', hka, hc⟩
+          · exact h5 l h
+
+/-- Complete description of `_coerce_types_tracked`: a list is returned untouched; a scalar makes `dict()` raise;
+    for a dict the result has the same keys in the same order, every value is the old value of that key or a
+    table conversion of it that the schema's annotation for that key allows, and every label names a conversion
+    that was applied. -/
+theorem coerceModel_spec (c : CEnv J K V) (j : J) :
+    (c.isList j = true ∧ coerceModel c j = .ok (j, [])) ∨
+    (c.isList j = false ∧ ∃ e, c.toDict j = .raise e ∧ coerceModel c j = .raise e) ∨
+    (c.isList j = false ∧ ∃ d out ls, c.toDict j = .ok d ∧ coerceModel c j = .ok (c.ofDict out, ls) ∧
+      out.map (·.1) = d.map (·.1) ∧ (∀ e ∈ out, ∃ v, (e.1, v) ∈ d ∧ FromConv c e.1 v e.2) ∧
+      ls.length ≤ c.fields.length ∧ ∀ l ∈ ls, LabelOk c l) := by
+  unfold coerceModel
+  cases hl : c.isList j with
+  | true => left; simp
+  | false =>
+    right
+    cases hd : c.toDict j with
+    | raise e => left; exact ⟨rfl, e, rfl, by simp⟩
+    | ok d =>
+      right
+      obtain ⟨h1, h2, new, h3, h4, h5⟩ := coerceFields_spec c c.fields d [] (fun _ h => h)
+      refine ⟨rfl, d, (coerceFields c c.fields d []).1, (coerceFields c c.fields d []).2, rfl, by simp, h1, h2, ?_, ?_⟩
+      · rw [h3]; simpa using h4
+      · rw [h3]; simpa using h5
+
+end Coercion
+
 end Operon.Chaperone
